@@ -27,6 +27,7 @@ def build(table="module"):
     S.consts["errno"] = errno_mod if "errno_mod" in dir() else __import__("errno")
     import rpyc.core.protocol as protocol_mod, rpyc.core.consts as consts_mod
     S.consts["HANDLERS"] = protocol_mod.Connection._request_handlers()
+    S.consts["TRUE"], S.consts["FALSE"] = True, False
     for _k, _v in vars(consts_mod).items():
         if _k.isupper():
             S.consts[_k] = _v
@@ -34,7 +35,7 @@ def build(table="module"):
     S.consts["T"] = T
     S.consts["PERM_INVARIANT"] = bs.PERM_INVARIANT
     st = store.Store()
-    for m in ("brine", "compat", "externals", "stream", "channel", "protocol_attr", "colls", "protocol_box", "protocol_core", "async_"):
+    for m in ("brine", "compat", "externals", "stream", "channel", "protocol_attr", "colls", "protocol_box", "protocol_core", "async_", "protocol_close"):
         importlib.import_module("contracts." + m).register(st)
     lib = libmodels.Lib(S)
     ex = engine.Executor(st, REPO, S, lib)
